@@ -23,6 +23,7 @@ struct MsgSpec {
     Bytes body;                        // entity body as sent (after content coding)
     Bytes payload;                     // what the body decodes to (== body without content coding)
     std::vector<size_t> chunk_sizes;   // for FR_CHUNKED
+    int chunk_fmt = 0;                 // how chunk sizes are written: 0 lower-case hex, 1 upper-case hex, 2 leading zeros (all 1*HEXDIG, RFC 7230 4.1)
     std::vector<std::string> chunk_ext;
     bool head_response = false;        // response to HEAD: headers may announce a body, none follows
     std::string eol = "\r\n";
